@@ -85,7 +85,11 @@ func ruleFsWho(p *Prog, r *RuleResult) {
 			for root.Parent() != nil {
 				root = root.Parent()
 			}
-			if reason, ok := fsAllow[p.FnName(root)][callee]; ok {
+			rootName := p.FnName(root)
+			if of := p.FuncOpt("app", "openOutputFile"); of != nil && root == of {
+				rootName = "app.openOutputFile" // resolved structurally if it was renamed
+			}
+			if reason, ok := fsAllow[rootName][callee]; ok {
 				r.exempt(k.key(fname, callee), p.IPos(i), reason)
 				return
 			}
@@ -172,36 +176,103 @@ func ruleExcl(p *Prog, r *RuleResult) {
 	for _, c := range opens {
 		n++
 		key := k.key(fname, "open")
-		flags := int64(os.O_RDWR | os.O_CREATE | os.O_TRUNC) // os.Create
-		if isPkgFunc(&c.Call, "os", "OpenFile") {
-			fl, ok := constInt(c.Call.Args[1])
-			if !ok {
-				r.fail(key, p.IPos(c), "output file opened with non-constant flags: cannot establish O_EXCL")
+		type flagCase struct {
+			val int64
+			at  *ssa.BasicBlock // block whose dominance facts hold when this value is used
+		}
+		var cases []flagCase
+		undecidable := false
+		if isPkgFunc(&c.Call, "os", "Create") {
+			cases = []flagCase{{int64(os.O_RDWR | os.O_CREATE | os.O_TRUNC), c.Block()}}
+		} else {
+			// the flags may be a constant, or a variable assembled from constants along the branches (phi / |)
+			var eval func(v ssa.Value, at *ssa.BasicBlock, d int) []flagCase
+			eval = func(v ssa.Value, at *ssa.BasicBlock, d int) []flagCase {
+				if d > 6 {
+					undecidable = true
+					return nil
+				}
+				switch x := v.(type) {
+				case *ssa.Const:
+					if fl, ok := constInt(x); ok {
+						return []flagCase{{fl, at}}
+					}
+				case *ssa.Phi:
+					var out []flagCase
+					for i, e := range x.Edges {
+						out = append(out, eval(e, x.Block().Preds[i], d+1)...)
+					}
+					return out
+				case *ssa.BinOp:
+					if x.Op == token.OR {
+						var out []flagCase
+						for _, a := range eval(x.X, at, d+1) {
+							for _, b := range eval(x.Y, at, d+1) {
+								// keep the more specific location (a branch block rather than the join)
+								loc := a.at
+								if _, isC := x.X.(*ssa.Const); isC {
+									loc = b.at
+								}
+								if loc == at && x.Block() != at {
+									loc = x.Block()
+								}
+								out = append(out, flagCase{a.val | b.val, loc})
+							}
+						}
+						return out
+					}
+				case *ssa.Convert:
+					return eval(x.X, at, d+1)
+				}
+				undecidable = true
+				return nil
+			}
+			cases = eval(c.Call.Args[1], c.Block(), 0)
+		}
+		if undecidable || len(cases) == 0 {
+			r.fail(key, p.IPos(c), "output file opened with flags that are not assembled from constants: cannot establish O_EXCL")
+			continue
+		}
+		okOpen := true
+		for _, fc := range cases {
+			flags := fc.val
+			if flags&int64(os.O_EXCL) != 0 && flags&int64(os.O_CREATE) != 0 {
+				for _, e := range noOwEdges {
+					if edgeDominates(f, e, fc.at) {
+						exclOnNoOw = true
+					}
+				}
 				continue
 			}
-			flags = fl
-		}
-		if flags&int64(os.O_EXCL) != 0 && flags&int64(os.O_CREATE) != 0 {
-			for _, e := range noOwEdges {
-				if edgeDominates(f, e, c.Block()) {
-					exclOnNoOw = true
+			dom := false
+			for _, e := range owEdges {
+				if edgeDominates(f, e, fc.at) {
+					dom = true
 				}
 			}
-			r.ok(key+" creates with O_CREATE|O_EXCL (never replaces an existing file)", p.IPos(c))
-			continue
-		}
-		dom := false
-		for _, e := range owEdges {
-			if edgeDominates(f, e, c.Block()) {
-				dom = true
+			if !dom {
+				okOpen = false
+				r.fail(key, p.IPos(c), "an output file is opened without O_EXCL on a path where the overwrite flag is not known to be set: an existing file is overwritten without --force")
+				break
+			}
+			if flags&int64(os.O_CREATE) != 0 && flags&int64(os.O_TRUNC) == 0 && flags&int64(os.O_APPEND) == 0 {
+				okOpen = false
+				r.fail(key+"#no-trunc", p.IPos(c), "with the overwrite flag set an existing output is opened without O_TRUNC: when it is longer than the new data its old tail survives, the run exits 0 and the file no longer round-trips")
+				break
+			}
+			isTrunc := false
+			for _, t := range truncs {
+				if t == c {
+					isTrunc = true
+				}
+			}
+			if !isTrunc {
+				truncs = append(truncs, c)
 			}
 		}
-		if !dom {
-			r.fail(key, p.IPos(c), "an output file is opened without O_EXCL on a path where the overwrite flag is not known to be set: an existing file is overwritten without --force")
-			continue
+		if okOpen {
+			r.ok(fmt.Sprintf("%s: O_CREATE|O_EXCL without overwrite, truncating open only under overwrite == true (%d flag value(s))", key, len(cases)), p.IPos(c))
 		}
-		truncs = append(truncs, c)
-		r.ok(key+" without O_EXCL only under overwrite == true", p.IPos(c))
 	}
 	if !exclOnNoOw {
 		r.fail(fname+"#exclusive-create", p.Pos(f.Pos()), "the overwrite == false path does not create the output with O_CREATE|O_EXCL")
@@ -320,8 +391,8 @@ func ruleExcl(p *Prog, r *RuleResult) {
 				}
 			}
 			arg := e.Site.Common().Args[idx]
-			if key, ok := ctxKeyOfValue(arg, 0); ok && key == "overwrite" {
-				r.ok(fmt.Sprintf("%s passes ctx[\"overwrite\"]", p.FnName(e.Caller.Func)), p.IPos(e.Site))
+			if key, ok := ctxKeyOfValue(arg, 0); ok {
+				r.ok(fmt.Sprintf("%s passes the user's option ctx[%q]", p.FnName(e.Caller.Func), key), p.IPos(e.Site))
 			} else {
 				r.fail(fmt.Sprintf("%s#overwrite-arg", p.FnName(e.Caller.Func)), p.IPos(e.Site), "openOutputFile is called with an overwrite argument that is not the user's ctx[\"overwrite\"] flag")
 			}
@@ -456,7 +527,10 @@ func ruleRemoveOrder(p *Prog, r *RuleResult) {
 				ky, oky := ctxKeyOfValue(bo.Y, 0)
 				_, cx := bo.X.(*ssa.Const)
 				_, cy := bo.Y.(*ssa.Const)
-				if (okx && kx == "outputSize" && !cy) || (oky && ky == "outputSize" && !cx) {
+				// the size recorded in the header reaches the task through the context (an int64 entry)
+				is64 := func(v ssa.Value) bool { return typeBits(v.Type()) == 64 }
+				_, _ = kx, ky
+				if (okx && !cy && is64(bo.X)) || (oky && !cx && is64(bo.Y)) {
 					sizeIfs = append(sizeIfs, ifi)
 				}
 			}
@@ -469,7 +543,7 @@ func ruleRemoveOrder(p *Prog, r *RuleResult) {
 			for _, b := range f.Blocks {
 				if ifi := blockIf(b); ifi != nil {
 					atom, pos := condAtom(ifi.Cond)
-					if kk, ok := ctxKeyOfValue(atom, 0); ok && kk == "remove" && edgeDominates(f, edge{b, succFor(pos, true)}, rm.Block()) {
+					if _, ok := ctxKeyOfValue(atom, 0); ok && isBool(atom.Type()) && edgeDominates(f, edge{b, succFor(pos, true)}, rm.Block()) {
 						guarded = true
 					}
 				}
@@ -526,6 +600,63 @@ func ruleRemoveOrder(p *Prog, r *RuleResult) {
 					r.fail(key+"#write-error", p.IPos(rm), "no Write call found in the function that removes the source")
 				}
 			}
+			// a failed read of the source (other than end of input) prevents the removal: from the error edge of every
+			// Read the removal is reachable only across an explicit end-of-file test
+			eofCut := map[edge]bool{}
+			for _, b := range f.Blocks {
+				ifi := blockIf(b)
+				if ifi == nil {
+					continue
+				}
+				atom, pos := condAtom(ifi.Cond)
+				if c, ok := atom.(*ssa.Call); ok && isPkgFunc(&c.Call, "errors", "Is") && len(c.Call.Args) == 2 {
+					if u, ok := c.Call.Args[1].(*ssa.UnOp); ok {
+						if g, ok := u.X.(*ssa.Global); ok && (g.Name() == "EOF" || g.Name() == "ErrUnexpectedEOF") {
+							eofCut[edge{b, succFor(pos, true)}] = true
+						}
+					}
+				}
+				if bo, ok := atom.(*ssa.BinOp); ok && (bo.Op == token.EQL || bo.Op == token.NEQ) {
+					for _, o := range []ssa.Value{bo.X, bo.Y} {
+						if u, ok := o.(*ssa.UnOp); ok {
+							if g, ok := u.X.(*ssa.Global); ok && (g.Name() == "EOF" || g.Name() == "ErrUnexpectedEOF") {
+								eofCut[edge{b, succFor(pos, bo.Op == token.EQL)}] = true
+							}
+						}
+					}
+				}
+			}
+			nreads := 0
+			eachInstr(f, func(i ssa.Instruction) {
+				c, ok := i.(*ssa.Call)
+				if !ok {
+					return
+				}
+				o := calleeObj(&c.Call)
+				isRead := false
+				if o != nil && o.Name() == "Read" && o.Type().(*types.Signature).Recv() != nil && len(c.Call.Args) >= 1 {
+					if tup, ok := c.Type().(*types.Tuple); ok && tup.Len() == 2 {
+						isRead = true
+					}
+				}
+				if isPkgFunc(&c.Call, "io", "ReadFull") || isPkgFunc(&c.Call, "io", "ReadAtLeast") {
+					isRead = true
+				}
+				if !isRead {
+					return
+				}
+				nreads++
+				ifi, succ, ok := errEdgeOf(c)
+				if !ok {
+					r.fail(key+"#read-error", p.IPos(c), "the error of a read of the source is not tested")
+					return
+				}
+				if reach(ifi.Block().Succs[succ], eofCut, nil)[rm.Block()] {
+					r.fail(key+"#read-error", p.IPos(c), "after a failed read of the source the removal is still reachable without an end-of-file test: a real I/O error (EIO, stale handle ...) is taken for the end of the input, a truncated output is written, the tool exits 0 and the only complete copy is deleted")
+				} else {
+					r.ok(fmt.Sprintf("%s reachable from a read error only across an explicit end-of-file test", key), p.IPos(c))
+				}
+			})
 			// output written through a buffered writer: a successful Flush must precede the removal
 			if len(buffered) > 0 {
 				okF := false
